@@ -15,6 +15,7 @@ import PoetryVerif.Proofs.MarkerAlgSoundStr
 import PoetryVerif.Proofs.MarkerAlgSoundExtra
 import PoetryVerif.Proofs.MarkerAlgSoundComb
 import PoetryVerif.Proofs.MarkerAlgSoundInvert
+import PoetryVerif.Proofs.MarkerAlgSoundVerEqv
 import PoetryVerif.Proofs.MarkerPrint
 
 set_option linter.unusedSimpArgs false
@@ -283,6 +284,69 @@ theorem intersect_union_sound_quotable {ex : List String} (hE : E.extras = some 
 /-- `sys_platform == "a"` inverts to `sys_platform != "a"` (through the grammar, character by character) -/
 example : (Leaf.invert (.single Ex.sA)).toOption.map M.dump = some (M.leaf (.single Ex.sNA)).dump := by
   decide +kernel
+
+/-- **The leaf facts hold for same-name leaves on a version-like variable other than `python_version`**
+(`python_full_version`, `platform_release`), in C05's regular setting: `RegB B` (the bounds occurring in the
+leaves are mutually regular, none is a local build) and `VerEnv B E n p` (the environment gives the variable a
+well-formed version `p` regular for `B` — e.g. a final release whose release differs from, or equals, every
+bound).  Marker equality implies equal truth by coherence; `_merge_single_markers` is exact through
+`VC.intersect_reg`/`VC.unionWith_reg`/`VC.allows_of_reg` (C05) and `eqvAllows` (C18's congruence lemmas).
+Remaining hypothesis: `MkVerOK` — `SingleMarker(name, str(constraint))` for a simple constraint re-reads to a
+leaf of the fragment admitting `p` exactly when the constraint does. -/
+theorem leafSpec_version_partial {B : List Version} (hB : RegB B) {n : String} {p : Version}
+    (hE : VerEnv B E n p) (hn : (n == "extra") = false) (hpv : (n == "python_version") = false)
+    (HM : MkVerOK B n p) : LeafSpec (leafEval E) (VerLeaf B n) := leafSpec_ver' hB hE hn hpv HM
+
+def exV380 : Version := ⟨0, [3, 8, 0], none, none, none, none, "3.8.0"⟩
+def exV391 : Version := ⟨0, [3, 9, 1], none, none, none, none, "3.9.1"⟩
+def exPfv : Single := ⟨"python_full_version", ">=", "3.8.0", false,
+  .ver (.single (.rng ⟨some exV380, none, true, false⟩))⟩
+def exEnvPy : Env := ⟨[("python_full_version", "3.9.1"), ("sys_platform", "a")], some []⟩
+
+/-- the hypotheses of the version fragment are met by `python_full_version >= "3.8.0"` in an environment with
+`python_full_version = 3.9.1` over the bound list `[3.8.0]` -/
+example : RegB [exV380] ∧ VerEnv [exV380] exEnvPy "python_full_version" exV391 ∧
+    VerLeaf [exV380] "python_full_version" (.single exPfv) ∧
+    mkSingle "python_full_version" ">=3.8.0" false = .ok exPfv := by
+  have hreg : RegB [exV380] := by
+    refine ⟨?_, ?_⟩
+    · intro x hx y hy
+      simp only [List.mem_cons, List.mem_nil_iff, or_false] at hx hy
+      subst hx; subst hy; exact Or.inl rfl
+    · intro e he
+      simp only [List.mem_cons, List.mem_nil_iff, or_false] at he
+      subst he; rfl
+  have m1 : RegMember [exV380] (.rng ⟨some exV380, none, true, false⟩) := by
+    refine ⟨⟨?_, ?_⟩, ⟨fun h => by simp at h, fun _ => rfl⟩, by show VRange.isStrictlyLower _ _ = false; decide, ?_⟩
+    · intro e he; simp [VRange.bounds] at he; subst he; decide
+    · intro m M hm hM; simp at hM
+    · intro e he; simp [RC.bounds, RC.view, VRange.bounds, RC.min, RC.max] at he; subst he; simp
+  refine ⟨hreg, ⟨⟨"3.9.1", rfl, rfl⟩, by decide, ?_⟩, ⟨rfl, by decide, _, rfl, ⟨m1.1, m1.2.2.1⟩, ?_⟩, rfl⟩
+  · intro e he
+    simp only [List.mem_cons, List.mem_nil_iff, or_false] at he
+    subst he; exact Or.inr (by decide)
+  · intro c hc
+    simp only [VC.flatten, List.mem_cons, List.mem_nil_iff, or_false] at hc
+    subst hc; exact m1
+
+/-- **Intersection and union on the combined domain** — plain string variables, `extra`, and
+`python_full_version` leaves (regular setting) in one marker: every fuel, every stack. -/
+theorem intersect_union_sound_domain_partial {B : List Version} (hB : RegB B) {ex : List String}
+    (hX : E.extras = some ex) {p : Version} (hE : VerEnv B E "python_full_version" p)
+    (HM : MkVerOK B "python_full_version" p) {a b r : M}
+    (ha : M.Good (DomLeaf B E) a) (hb : M.Good (DomLeaf B E) b) :
+    (mIntersect fuel stk a b = .ok r →
+      M.Good (DomLeaf B E) r ∧ M.validate E r = .ok (holds E a && holds E b)) ∧
+    (mUnion fuel stk a b = .ok r →
+      M.Good (DomLeaf B E) r ∧ M.validate E r = .ok (holds E a || holds E b)) :=
+  ⟨fun h => by
+      have := intersect_sound_partial (leafSpec_dom hB hX hE HM)
+        (fun l hl => domLeaf_evaluable hB hX hE hl) ha hb h
+      exact ⟨this.1, this.2.2⟩,
+   fun h => by
+      have := union_sound_partial (leafSpec_dom hB hX hE HM)
+        (fun l hl => domLeaf_evaluable hB hX hE hl) ha hb h
+      exact ⟨this.1, this.2.2⟩⟩
 
 /-- the leaf facts that remain hypotheses outside the string fragment, as one visible statement:
 version-like variables (through C05's exactness on regular probes), the
